@@ -401,6 +401,7 @@ class Facts:
                 tgt = self.fixture_functions if "/verif/fixtures/" in fn.file else self.functions
                 if fn.key not in tgt:
                     tgt[fn.key] = fn
+        self.inlined_into = {}
         self.renames = self._canonicalise_member_names()
         for fn in self.functions.values():
             self.by_qn.setdefault(fn.qn, []).append(fn)
@@ -550,9 +551,28 @@ class Facts:
             c = [f for f in c if bool(f.d.get("const")) == const]
         if pred is not None:
             c = [f for f in c if pred(f)]
+        if len(c) == 0 and nparams is not None and pred is None and const is None:
+            # a private helper that had exactly one caller on the reviewed tree and has since been inlined into it:
+            # the rules that anchor on the helper look at that caller, which now contains its statements
+            h = self._single_caller_hosts().get("%s/%d" % (qn, nparams))
+            if h is not None and not self.by_qn.get(qn):
+                hc = [f for f in self.by_qn.get(h["qn"], []) if len(f.params) == h["nparams"]]
+                if len(hc) == 1:
+                    self.inlined_into["%s/%d" % (qn, nparams)] = hc[0].key
+                    return hc[0]
         if len(c) != 1:
             raise AnalysisBroken("anchor function %s (nparams=%s) resolved to %d definitions" % (qn, nparams, len(c)))
         return c[0]
+
+    def _single_caller_hosts(self):
+        if getattr(self, "_hosts", None) is None:
+            path = os.path.join(os.path.dirname(os.path.dirname(os.path.abspath(__file__))), "spec", "names.json")
+            try:
+                with open(path) as fh:
+                    self._hosts = json.load(fh).get("single_caller_helpers", {})
+            except OSError:
+                self._hosts = {}
+        return self._hosts
 
     def fns(self, qn):
         return list(self.by_qn.get(qn, []))
@@ -583,7 +603,7 @@ class Facts:
         return {"units": len(self.units), "repo_units": self.meta["repo_units"], "functions": len(self.functions),
                 "records": len(self.records), "enums": len(self.enums), "constants": len(self.vars),
                 "cfg_blocks": nblocks, "call_sites": ncalls, "tree_key": self.meta["key"],
-                "members_read_under_frozen_names": self.renames}
+                "members_read_under_frozen_names": self.renames, "helpers_read_in_their_caller": self.inlined_into}
 
 
 def dump_function(fn, out=None):
